@@ -557,22 +557,37 @@ Ltac inv_wr :=
       apply write_operand_inv in H; destruct H as [? ->]
   end.
 
+(** a load that is KEPT (and executed) leaves the flags describing its register *)
+Lemma transfer_kept_load : forall k i ahead,
+  snd (transfer k i ahead) = false ->
+  (i_mn i = LDA -> fst (transfer k i ahead) = mkK (Some (i_op i)) (k_x k) (k_y k) FA) /\
+  (i_mn i = LDX -> fst (transfer k i ahead)
+                   = mkK (kill_if ends_x (k_acc k)) (Some (i_op i)) (kill_if ends_x (k_y k)) FX) /\
+  (i_mn i = LDY -> fst (transfer k i ahead)
+                   = mkK (kill_if ends_y (k_acc k)) (kill_if ends_y (k_x k)) (Some (i_op i)) FY).
+Proof.
+  intros k i ahead H. unfold transfer in *.
+  repeat split; intros M; rewrite M in *; cbv zeta in *; cbn [fst snd] in *; rewrite H; reflexivity.
+Qed.
+
 Theorem transfer_sound : forall cfg k i ahead s s',
   ports cfg = [] -> bytes_ok s ->
   (i_mn i = PHA \/ i_mn i = PHP -> know_off_stack cfg k s) ->
   ind_legal i -> xfer_no_zp_y cfg k i ->
+  snd (transfer k i ahead) = false ->
   know_sound cfg k s -> steps_to cfg i s s' ->
   know_sound cfg (fst (transfer k i ahead)) s'.
 Proof.
-  intros cfg k i ahead s s' HP HB HOFF HIND HXF KS (op & c & P & E).
+  intros cfg k i ahead s s' HP HB HOFF HIND HXF HKEPT KS (op & c & P & E).
   destruct KS as (KA & KX & KY & KF & KFX & KFY).
   pose proof (parse_none_iff _ _ _ P) as PN.
+  destruct (transfer_kept_load _ _ _ HKEPT) as (KLA & KLX & KLY). clear HKEPT.
   destruct i as [mn o cy alt nb pr]. cbn [i_mn i_op] in *.
   destruct mn.
-  - (* LDA *) inv_exec E. bulk KA KX KY KF.
+  - (* LDA *) rewrite (KLA eq_refl). clear KLA KLX KLY. inv_exec E. bulk KA KX KY KF.
     intros o' Ho'. inversion Ho'. subst o'. exists op, c. split; [exact P|].
     rewrite (read_operand_frame cfg LDA s); [eassumption| | |]; intros; reflexivity.
-  - (* LDX *) inv_exec E. bulk KA KX KY KF.
+  - (* LDX *) rewrite (KLX eq_refl). clear KLA KLX KLY. inv_exec E. bulk KA KX KY KF.
     intros o' Ho'. inversion Ho'. subst o'. exists op, c. split; [exact P|].
     match goal with R : read_operand _ _ _ _ = Some _ |- _ =>
       pose proof (ldx_not_x _ _ _ _ R) as U;
@@ -580,7 +595,7 @@ Proof.
     + rewrite U. discriminate.
     + intros; reflexivity.
     + intros; reflexivity.
-  - (* LDY *) inv_exec E. bulk KA KX KY KF.
+  - (* LDY *) rewrite (KLY eq_refl). clear KLA KLX KLY. inv_exec E. bulk KA KX KY KF.
     intros o' Ho'. inversion Ho'. subst o'. exists op, c. split; [exact P|].
     match goal with R : read_operand _ _ _ _ = Some _ |- _ =>
       assert (U : uses_y op = false);
